@@ -186,6 +186,38 @@ def always_progress(F, g, memo):
     return memo[g.path]
 
 
+def looks_at_next_byte(F, g, memo):
+    """every return of g has read a byte (directly or through a callee that always looks), or found `err` set"""
+    if g.path in memo:
+        return memo[g.path]
+    memo[g.path] = False
+    ERR = ("field", ("param", 1), "err", TOK)
+    ok = True
+    n = 0
+    try:
+        for p in Sym(g, copies=True, max_paths=20000).paths():
+            if p.end[0] != "ret":
+                continue
+            n += 1
+            if any(a == ("call", "std::option::Option::is_some", (ERR,)) and v == 1 for a, v in p.conds) or any(a == ("call", "std::option::Option::is_none", (ERR,)) and v == 0 for a, v in p.conds):
+                continue
+            hit = False
+            for e in p.events:
+                if e[0] == "call" and e[6] is not None and e[6].local and e[6].adt == TOK:
+                    if e[6].name in PROGRESS_FNS:
+                        hit = True
+                    else:
+                        h = F.method(TOK, e[6].name, required=False)
+                        if h is not None and h is not g and looks_at_next_byte(F, h, memo):
+                            hit = True
+            if not hit:
+                ok = False
+    except Exception:
+        ok = False
+    memo[g.path] = ok and n > 0
+    return memo[g.path]
+
+
 def none_on_err(F, g):
     """g returns None on every path on which it found `err` set, and never returns Some(..) straight after
     a read whose outcome it did not look at"""
@@ -215,6 +247,7 @@ def none_on_err(F, g):
 def r16_6(ctx):
     F = ctx.facts
     memo_prog = {}
+    memo_look = {}
 
     def body(r):
         n = 0
@@ -284,6 +317,24 @@ def r16_6(ctx):
                 ok = (not cyc_without) and (exits_on_err or any(f.blocks[b]["term"]["k"] == "call" and "f" in f.blocks[b]["term"] and Callee(f.blocks[b]["term"]["f"]).name == "tag_attr" for b in progress))
                 r.ob("progress:%s:loop@%d" % (f.name, heads.index(h)), ok, f.site,
                      "every cycle passes through read_byte() and the loop is left once err is set" if ok else ("a cycle makes no progress (no read_byte on it)" if cyc_without else "the loop is not left when the end-of-input error is set"))
+                # a loop that gives a byte back (`raw.end -= 1`) counts on the readers it then calls to look at that
+                # byte: each of them reads on every path that returns (a reader that returns without looking leaves
+                # the loop where it was)
+                unread = False
+                for bi in body_blocks:
+                    for st in f.blocks[bi]["st"]:
+                        if st["k"] == "A" and st["r"].get("k") == "bin" and st["r"].get("op", "").startswith("Sub") and ("html::Tokenizer", "raw") in place_field_chain(op_place(st["r"]["a"]) or [0, []]):
+                            unread = True
+                if unread:
+                    for bi in sorted(body_blocks):
+                        t = f.blocks[bi]["term"]
+                        if t["k"] == "call" and "f" in t:
+                            cal = Callee(t["f"])
+                            if cal.local and cal.adt == TOK and cal.name not in PROGRESS_FNS:
+                                hnd = F.method(TOK, cal.name, required=False)
+                                if hnd is not None and hnd is not f:
+                                    r.ob("progress:%s:loop@%d:%s-looks-at-the-next-byte" % (f.name, heads.index(h), cal.name), looks_at_next_byte(F, hnd, memo_look), hnd.site,
+                                         "%s reads on every path that returns without the end-of-input error (the loop of %s gives a byte back and relies on it)" % (cal.name, f.name))
         r.ob("progress:loops-found", n >= 12, "", "%d loops in the tokenizer" % n)
         # read_byte: either advances or sets err
         rb = F.method(TOK, "read_byte")
